@@ -180,6 +180,13 @@ def build_and_run(job):
                 with open(os.devnull, "w") as dn, contextlib.redirect_stderr(dn):   # the bars themselves are of no interest
                     ap = app.LinearLeastSquares(Aop, y, proxg=pg, lamda=lam, G=G, z=zz, solver=solver, **kw)
                     x = ap.run()
+            elif job.get("positional"):
+                # the leading parameters passed by position, in the order of the published signature
+                # (A, y, x, proxg, lamda, G, g, z, solver): a positional caller must get the same problem
+                kwp = dict(kw)
+                x0p = kwp.pop("x", None)
+                ap = app.LinearLeastSquares(Aop, y, x0p, pg, lam, G, None, zz, solver, **kwp)
+                x = ap.run()
             else:
                 ap = app.LinearLeastSquares(Aop, y, proxg=pg, lamda=lam, G=G, z=zz, solver=solver, **kw)
                 x = ap.run()
@@ -242,6 +249,7 @@ def run(ctx):
         if st["phase"] == "ready":
             jobs.append({"opt": o, "variant": 0, "cplx": o["proxg"] in ("None", "l2") and (len(jobs) % 2 == 0), "seed": ctx.seed, "phase": st["phase"], "x32": True})
             jobs.append({"opt": o, "variant": 1, "cplx": False, "seed": ctx.seed + 1, "phase": st["phase"], "pbar": True})
+            jobs.append({"opt": o, "variant": 0, "cplx": False, "seed": ctx.seed + 3, "phase": st["phase"], "positional": True})
             cx = o["proxg"] in ("None", "l2")
             jobs.append({"opt": o, "variant": len(jobs) % 2, "cplx": cx, "seed": ctx.seed + 2, "phase": st["phase"], "aop": "fft" if cx else ["identity", "circshift"][len(jobs) % 2]})
     with mp.get_context("fork").Pool(16) as pool:
@@ -249,7 +257,7 @@ def run(ctx):
     by_problem = {}
     for job, res in zip(jobs, results):
         o = job["opt"]
-        key = {"solver": o["solver"], "lamda": o["lamda"], "z": o["z"], "proxg": o["proxg"], "G": o["G"], "variant": job["variant"], "complex": job["cplx"], "x32": bool(job.get("x32")), "pbar": bool(job.get("pbar")), "aop": job.get("aop", "matmul")}
+        key = {"solver": o["solver"], "lamda": o["lamda"], "z": o["z"], "proxg": o["proxg"], "G": o["G"], "variant": job["variant"], "complex": job["cplx"], "x32": bool(job.get("x32")), "pbar": bool(job.get("pbar")), "aop": job.get("aop", "matmul"), "positional": bool(job.get("positional"))}
         r.traces += 1
         r.evaluations += 1
         r.nontrivial += 1
